@@ -15,8 +15,26 @@
 
 package dags
 
-// checkPush returns if a node is able and worthy to upper layer
-func checkPush(m *Map, node *MapNode) (able, worthy bool) {
+// pushCheck is the result of checkPush on one node.
+type pushCheck struct{ able, worthy bool }
+
+// checkPush returns if a node is able and worthy to upper layer.
+// Results are remembered in memo, which is valid as long as no layer changes,
+// so that every node is explored once rather than once per path.
+func checkPush(
+	m *Map, node *MapNode, memo map[*MapNode]pushCheck,
+) (able, worthy bool) {
+	if c, found := memo[node]; found {
+		return c.able, c.worthy
+	}
+	able, worthy = checkPushNode(m, node, memo)
+	memo[node] = pushCheck{able, worthy}
+	return able, worthy
+}
+
+func checkPushNode(
+	m *Map, node *MapNode, memo map[*MapNode]pushCheck,
+) (able, worthy bool) {
 	if node.layer == m.Nlayer-1 {
 		return false, false // already at the top layer
 	}
@@ -29,7 +47,7 @@ func checkPush(m *Map, node *MapNode) (able, worthy bool) {
 			continue
 		}
 
-		subAble, subWorthy := checkPush(m, out)
+		subAble, subWorthy := checkPush(m, out, memo)
 		if !subAble {
 			return false, false
 		}
@@ -45,12 +63,16 @@ func checkPush(m *Map, node *MapNode) (able, worthy bool) {
 // a node is push worthy if pushing it can reduce the total
 // length of the edges
 func pushWorthy(m *Map, node *MapNode) bool {
-	_, ret := checkPush(m, node)
+	_, ret := checkPush(m, node, make(map[*MapNode]pushCheck))
 	return ret
 }
 
 // pushNode pushes a node to upper layer
 func pushNode(m *Map, node *MapNode, pushed map[string]*MapNode) {
+	if pushed[node.Name] != nil {
+		return // already explored
+	}
+
 	// pushing all nodes on the right
 	for _, out := range node.CritOuts {
 		if out.layer > node.layer+1 {
